@@ -1,14 +1,14 @@
 (* C13 — Rooted trees are drawn without edge crossings.
    Model: Model/Wmedian.v (the ordering heuristic, functional model), Model/CrossCount.v; proofs:
    Proofs/CrossCountProofs.v (and Proofs/WmedianProofs.v, Proofs/TreeProofs.v when present).
-   C13_partial. Proved for all inputs: the cross counter is exact on graphs without parallel edges (a tree has
-   none), so the number the ordering phase reports IS the number of crossings of the order it leaves behind, and
-   the positioners keep that order (C12). What is decided per instance rather than proved here: that for a
-   rooted tree the reported number is 0 — the functional model of the heuristic is evaluated in the kernel on
-   every traced tree, must reproduce the implementation's order and crossing number exactly (codes 15xx, 1500,
-   1604), and the direct oracle counts the crossings of the drawing. *)
+   Proved for all inputs: the ordering phase draws every rooted tree whose edges span one layer without crossings
+   (C13_out_trees_have_no_crossings, C13_in_trees_have_no_crossings: planarity of the DFS initial order, the
+   zero-crossing shortcut, the tie rule between the two runs), the counter is exact, the positioners keep the
+   order (C12). C13_partial: that network-simplex layering makes every edge of a tree span exactly one layer
+   (optimality of the layering on trees) is not proved here; it is decided per instance by the deep
+   correspondence and the certificate check of C10, and searched by the direct oracle. *)
 From Coq Require Import List ZArith.
-From Autog Require Import Graph Phase3 CrossCount CrossCountProofs.
+From Autog Require Import Graph Phase3 CrossCount Wmedian CrossCountProofs WmedianProofs TreeProofs.
 Import ListNotations.
 
 Theorem C13_reported_zero_means_no_crossings_partial : forall g,
@@ -19,3 +19,17 @@ Print Assumptions C13_reported_zero_means_no_crossings_partial.
 Theorem C13_counter_exact : forall g, ordered_proper g -> reported_crossings g = drawing_crossings g.
 Proof. exact reported_crossings_exact. Qed.
 Print Assumptions C13_counter_exact.
+
+(* the ordering phase on a rooted tree whose edges all span exactly one layer (root in the first layer for
+   out-trees, in the last for in-trees — what an optimal layering produces; checked per instance, see above):
+   the DFS initial order is planar, the run returns it at once, and the phase reports and installs an order
+   with no crossing — whatever the order of the edge list, of the adjacency lists and of the node list *)
+Theorem C13_out_trees_have_no_crossings : forall maxiter g root g' x,
+  layered g -> rooted_out_tree g root -> exec_wmedian maxiter g = Ok (g', x) -> x = 0%Z /\ drawing_crossings g' = 0%Z.
+Proof. exact rooted_out_tree_no_crossings. Qed.
+Print Assumptions C13_out_trees_have_no_crossings.
+
+Theorem C13_in_trees_have_no_crossings : forall maxiter g root g' x,
+  layered g -> rooted_in_tree g root -> exec_wmedian maxiter g = Ok (g', x) -> x = 0%Z /\ drawing_crossings g' = 0%Z.
+Proof. exact rooted_in_tree_no_crossings. Qed.
+Print Assumptions C13_in_trees_have_no_crossings.
